@@ -1285,4 +1285,156 @@ theorem eventSection_err {c : Cfg} {s : ESt} {re : Option EvReq} {e : Err}
               · injection h with h; exact .inl h.symm
       · injection h with h; exact .inl h.symm
 
+/-! ## attribute reports come before event reports -/
+
+/-- no attribute report follows an event report -/
+def Ordered : List ChunkOut → Prop
+  | [] => True
+  | ch :: rest => (ch.events ≠ [] → ∀ x ∈ rest, x.pieces = []) ∧ Ordered rest
+
+theorem ordered_of_no_events : ∀ l : List ChunkOut, (∀ ch ∈ l, ch.events = []) → Ordered l := by
+  intro l
+  induction l with
+  | nil => intro _; trivial
+  | cons a l ih =>
+    intro h
+    exact ⟨fun hne => absurd (h a (by simp)) hne, ih (fun ch hch => h ch (by simp [hch]))⟩
+
+/-- a message without attribute reports may follow -/
+theorem ordered_snoc : ∀ (l : List ChunkOut) (e : ChunkOut), Ordered l → e.pieces = [] → Ordered (l ++ [e]) := by
+  intro l
+  induction l with
+  | nil => intro e _ _; exact ⟨fun _ x hx => absurd hx List.not_mem_nil, trivial⟩
+  | cons a l ih =>
+    intro e h he
+    show (a.events ≠ [] → ∀ x ∈ l ++ [e], x.pieces = []) ∧ Ordered (l ++ [e])
+    refine ⟨?_, ih e h.2 he⟩
+    intro hne x hx
+    simp only [List.mem_append, List.mem_singleton] at hx
+    rcases hx with hx | rfl
+    · exact h.1 hne x hx
+    · exact he
+
+/-- the last message may get more event reports -/
+theorem ordered_last : ∀ (l : List ChunkOut) (a b : ChunkOut), Ordered (l ++ [a]) → b.pieces = a.pieces →
+    Ordered (l ++ [b]) := by
+  intro l
+  induction l with
+  | nil => intro a b _ _; exact ⟨fun _ x hx => absurd hx List.not_mem_nil, trivial⟩
+  | cons c l ih =>
+    intro a b h hb
+    have h' : (c.events ≠ [] → ∀ x ∈ l ++ [a], x.pieces = []) ∧ Ordered (l ++ [a]) := h
+    show (c.events ≠ [] → ∀ x ∈ l ++ [b], x.pieces = []) ∧ Ordered (l ++ [b])
+    refine ⟨?_, ih a b h'.2 hb⟩
+    intro hne x hx
+    simp only [List.mem_append, List.mem_singleton] at hx
+    rcases hx with hx | rfl
+    · exact h'.1 hne x (by simp [hx])
+    · rw [hb]; exact h'.1 hne a (by simp)
+
+/-- the messages sent so far and the open one -/
+def ESt.all (s : ESt) : List ChunkOut :=
+  s.done.reverse ++ [{ pieces := s.attrs.reverse, events := s.evs.reverse, size := 0, more := false }]
+
+def OInv (s : ESt) : Prop := Ordered s.all
+
+theorem writeEv_ordered {s : ESt} (p : EvPiece) (h : OInv s) : OInv (s.writeEv p) := by
+  unfold OInv ESt.all at *
+  exact ordered_last _ _ _ h rfl
+
+theorem flushEv_ordered {c : Cfg} {s : ESt} (h : OInv s) : OInv (s.flushEv c) := by
+  unfold OInv ESt.all at *
+  simp only [ESt.flushEv, List.reverse_cons, List.reverse_nil]
+  apply ordered_snoc _ _ _ rfl
+  exact ordered_last _ _ _ h rfl
+
+theorem putEvStatus_ordered {c : Cfg} {s s' : ESt} {k sz : Nat} (h : OInv s)
+    (hp : putEvStatus c s k sz = .ok s') : OInv s' := by
+  unfold putEvStatus at hp
+  split at hp
+  · injection hp with hp; subst hp; exact writeEv_ordered _ h
+  · split at hp
+    · injection hp with hp; subst hp; exact writeEv_ordered _ (flushEv_ordered h)
+    · cases hp
+
+theorem putEvStatuses_ordered {c : Cfg} : ∀ (szs : List Nat) (k : Nat) (s s' : ESt), OInv s →
+    putEvStatuses c k szs s = .ok s' → OInv s' := by
+  intro szs
+  induction szs with
+  | nil => intro k s s' h hp; simp [putEvStatuses] at hp; subst hp; exact h
+  | cons sz szs ih =>
+    intro k s s' h hp
+    simp only [putEvStatuses] at hp
+    cases h1 : putEvStatus c s k sz with
+    | error e => rw [h1] at hp; cases hp
+    | ok s1 => rw [h1] at hp; exact ih (k + 1) s1 s' (putEvStatus_ordered h h1) hp
+
+theorem sweep_ordered {c : Cfg} (r : EvReq) : ∀ (es : List Ev) (s s' : ESt), OInv s →
+    sweep c r es s = .ok s' → OInv s' := by
+  intro es
+  induction es with
+  | nil => intro s s' h hp; simp [sweep] at hp; subst hp; exact h
+  | cons e es ih =>
+    intro s s' h hp
+    simp only [sweep] at hp
+    have hwr : ∀ t : ESt, OInv t → OInv (t.wr e) := fun t ht => writeEv_ordered (.data e.num e.size) ht
+    repeat' split at hp
+    all_goals first
+      | exact ih _ s' (hwr _ h) hp
+      | exact ih _ s' (hwr _ (flushEv_ordered h)) hp
+      | exact ih _ s' h hp
+      | exact ih { s with cursor := e.num } s' h hp
+      | cases hp
+
+theorem attrSection_ordered {c : Cfg} (hw : c.WF) {ra : Option (List AttrReq)} {s1 : ESt}
+    (h : attrSection c ra = .ok s1) : OInv s1 := by
+  cases ra with
+  | none =>
+    simp only [attrSection] at h
+    injection h with h; subst h
+    exact ⟨fun _ x hx => absurd hx List.not_mem_nil, trivial⟩
+  | some as =>
+    obtain ⟨s, _, hinv, hd, _, he, _⟩ := attrSection_some hw h
+    apply ordered_of_no_events
+    intro ch hch
+    simp only [ESt.all, List.mem_append, List.mem_reverse, List.mem_singleton] at hch
+    rcases hch with hch | rfl
+    · rw [hd] at hch; exact (hinv.doneOk ch hch).2.2.2
+    · simp [he]
+
+theorem eventSection_ordered {c : Cfg} {s s2 : ESt} {re : Option EvReq} (h : OInv s)
+    (hp : eventSection c s re = .ok s2) : OInv s2 := by
+  cases re with
+  | none => simp only [eventSection] at hp; injection hp with hp; subst hp; exact h
+  | some r =>
+    simp only [eventSection] at hp
+    cases hx : expand c s.lim c.evOpen with
+    | error e => rw [hx] at hp; cases hp
+    | ok lim =>
+      rw [hx] at hp
+      simp only at hp
+      split at hp
+      · cases hst : putEvStatuses c 0 r.statuses { s with lim := lim, used := s.used + c.evOpen, base := s.used + c.evOpen, cursor := r.maxSeen } with
+        | error e => rw [hst] at hp; cases hp
+        | ok s3 =>
+          rw [hst] at hp
+          simp only at hp
+          have o3 : OInv s3 := putEvStatuses_ordered _ _ _ _ (show OInv { s with lim := lim, used := s.used + c.evOpen, base := s.used + c.evOpen, cursor := r.maxSeen } from h) hst
+          rw [evLoop_eq_sweep c r r.buf [] s3 r.buf.length (Nat.le_refl _) (by simp) (by simp)] at hp
+          cases hsw : sweep c r r.buf s3 with
+          | error e => rw [hsw] at hp; cases hp
+          | ok s4 =>
+            rw [hsw] at hp
+            simp only at hp
+            have o4 := sweep_ordered r _ _ _ o3 hsw
+            cases hx2 : expand c s4.lim c.close with
+            | error e => rw [hx2] at hp; cases hp
+            | ok lim' =>
+              rw [hx2] at hp
+              simp only at hp
+              split at hp
+              · injection hp with hp; subst hp; exact o4
+              · cases hp
+      · cases hp
+
 end Chunk
